@@ -110,8 +110,12 @@ Definition parse_raw_change_cur (c : cursor) : res verr (raw_change_data * curso
   let! (phl, c) := cur_read_u64 c in
   let! (ph, c) := cur_read_values c phl 8 le_dec in
   Ok (mkRCD base (combine indices values) (ns_of_list ph), c).
+(* cursor.rs expect_end (fix 397122a): a change record must be consumed exactly *)
+Definition expect_end (c : cursor) : res verr unit :=
+  if c_pos c =? len (c_bytes c) then Ok tt else Err EWrongLength.
 Definition parse_raw_change_data (bytes : list N) : res verr raw_change_data :=
-  let! (x, _) := parse_raw_change_cur (mkCur bytes 0) in Ok x.
+  let! (x, c) := parse_raw_change_cur (mkCur bytes 0) in
+  let! _ := expect_end c in Ok x.
 
 (* what a valid record parses to *)
 Definition project_record (r : crecord) : raw_change_data :=
